@@ -1,3 +1,382 @@
-def kalman(g, *a, **k): pass
-def lg_step(g, *a): pass
-def lg_iter(g, *a): pass
+"""C20, linear-Gaussian part: kalman_filter / kalman_smoother / linear_gaussian step model against the joint Gaussian
+of (x_1..x_T, y_1..y_T) written out directly from the model equations.
+
+The reference never inverts a matrix.  A function f(y) is the conditional mean E[x | y_J] of a joint Gaussian iff it is
+affine in y_J, f(E y) = E x and the residual x - f(y) is uncorrelated with y_J (B S_JJ = S_xJ, B the slope); the
+conditional covariance is then S_xx - B S_Jx.  A function g(z) is the log density of N(m, S) iff
+g(z) - g(m) = -1/2 (z-m)' L (z-m) with L S = I, and g(m) = -n/2 log(2 pi) - 1/2 log det S.  Slopes B and the matrix L are
+read off the code's own output terms by exact finite differences, so every obligation is an identity between rational
+functions (with square roots from Cholesky factors) of the model parameters, decided by ring normal form + z3."""
+from __future__ import annotations
+
+import itertools
+import math
+from fractions import Fraction
+
+import numpy as np
+import z3
+
+import jax
+import jax.numpy as jnp
+
+from .. import symjax as sj, solve
+
+
+def chol_pd(name, n):
+    """all symmetric positive-definite n x n matrices, parametrised by their Cholesky factor (positive diagonal)"""
+    L = np.empty((n, n), dtype=object)
+    cons = []
+    for i in range(n):
+        for j in range(n):
+            if j > i:
+                L[i, j] = z3.RealVal(0)
+            else:
+                L[i, j] = z3.Real(f"{name}{i}{j}")
+                if i == j:
+                    cons.append(L[i, j] > 0)
+    S = np.empty((n, n), dtype=object)
+    for i in range(n):
+        for j in range(n):
+            S[i, j] = z3.simplify(sum(L[i, k] * L[j, k] for k in range(min(i, j) + 1)))
+    return S, cons
+
+
+def mm(*Ms):
+    out = Ms[0]
+    for M in Ms[1:]:
+        out = np.dot(out, M)
+    return out
+
+
+def mat(name, r, c):
+    return sj.fresh_like((r, c), np.float32, name)
+
+
+class LG:
+    def __init__(self, ds, do, T):
+        self.ds, self.do, self.T = ds, do, T
+        self.mu0 = sj.fresh_like((ds,), np.float32, "mu")
+        self.S0, c0 = chol_pd("s", ds)
+        self.A = mat("A", ds, ds)
+        self.Q, c1 = chol_pd("q", ds)
+        self.C = mat("C", do, ds)
+        self.R, c2 = chol_pd("r", do)
+        self.Y = mat("y", T, do)
+        self.cons = c0 + c1 + c2
+        self._joint()
+
+    def example(self):
+        ds, do, T = self.ds, self.do, self.T
+        return (jnp.zeros((T, do)), jnp.zeros(ds), jnp.eye(ds), jnp.eye(ds) * 0.5, jnp.eye(ds), jnp.ones((do, ds)), jnp.eye(do))
+
+    def sym(self):
+        return [self.Y, self.mu0, self.S0, self.A, self.Q, self.C, self.R]
+
+    def _joint(self):
+        """means and covariances of the joint Gaussian of x_0..x_{T-1}, y_0..y_{T-1}, from the model equations"""
+        T, A, C = self.T, self.A, self.C
+        mx = [self.mu0]
+        P = [self.S0]
+        for t in range(1, T):
+            mx.append(mm(A, mx[-1]))
+            P.append(mm(A, P[-1], A.T) + self.Q)
+        self.mx = mx
+        self.my = [mm(C, m) for m in mx]
+        Cxx = [[None] * T for _ in range(T)]
+        for s in range(T):
+            cur = P[s]                       # Cov(x_s, x_s)
+            Cxx[s][s] = cur
+            for t in range(s + 1, T):
+                cur = mm(cur, A.T)           # Cov(x_s, x_t) = Cov(x_s, x_{t-1}) A'
+                Cxx[s][t] = cur
+                Cxx[t][s] = cur.T
+        self.Cxx = Cxx
+        self.Cxy = [[mm(Cxx[s][t], C.T) for t in range(T)] for s in range(T)]
+        self.Cyy = [[mm(C, Cxx[s][t], C.T) + (self.R if s == t else 0) for t in range(T)] for s in range(T)]
+
+    def yvars(self):
+        return list(self.Y.ravel())
+
+    def my_flat(self, upto=None):
+        return [e for t in range(self.T if upto is None else upto) for e in self.my[t]]
+
+    def Syy(self, n):
+        """Cov of (y_0..y_{n-1}) as one (n do) x (n do) matrix"""
+        return np.block([[self.Cyy[s][t] for t in range(n)] for s in range(n)])
+
+    def Sxy(self, t, n):
+        """Cov(x_t, (y_0..y_{n-1}))"""
+        return np.concatenate([self.Cxy[t][u] for u in range(n)], axis=1)
+
+
+def at(terms, zvars, vals):
+    """substitute the variables zvars by the terms vals in every element"""
+    sub = [(v, z3.simplify(x) if z3.is_expr(x) else sj.RV(x)) for v, x in zip(zvars, vals)]
+    arr = sj.obj(terms)
+    out = np.empty(arr.shape, dtype=object)
+    for idx in np.ndindex(arr.shape):
+        out[idx] = z3.substitute(sj.unlog(arr[idx]), *sub)
+    return out
+
+
+def slope(f, zvars, base):
+    """for an affine f: the matrix B with f(z) = f(base) + B (z - base), by exact finite differences"""
+    f0 = at(f, zvars, base)
+    cols = []
+    for j in range(len(zvars)):
+        bump = [b + (1 if i == j else 0) for i, b in enumerate(base)]
+        cols.append(at(f, zvars, bump) - f0)
+    return f0, np.stack(cols, axis=-1)
+
+
+def flat_pairs(a, b):
+    a, b = np.broadcast_arrays(sj.obj(a), sj.obj(b))
+    return [sj.unlog(x) for x in a.ravel()], [sj.unlog(y) for y in b.ravel()]
+
+
+def det(M):
+    M = sj.obj(M)
+    n = M.shape[0]
+    if n == 0:
+        return z3.RealVal(1)
+    if n == 1:
+        return M[0, 0]
+    tot = None
+    for j in range(n):
+        minor = np.delete(np.delete(M, 0, axis=0), j, axis=1)
+        term = M[0, j] * det(minor)
+        if j % 2:
+            term = -term
+        tot = term if tot is None else tot + term
+    return tot
+
+
+def conditional_mean_obligations(g, tag, what, f, Pcov, lg, t, n_cond, R):
+    """f: code's mean for x_t (ds terms), Pcov: code's covariance (ds x ds); conditioning on y_0..y_{n_cond-1}"""
+    yv = lg.yvars()
+    base = lg.my_flat()
+    f0, B = slope(f, yv, base)
+    n = n_cond * lg.do
+    dy = np.array([y - m for y, m in zip(yv, base)], dtype=object)
+    g.rat_eq(f"{tag}: {what} mean of x_{t} is affine in the observations", *flat_pairs(f, f0 + mm(B, dy)), **R)
+    g.rat_eq(f"{tag}: {what} mean of x_{t} at the prior mean of y is the prior mean of x_{t} (unbiased)", *flat_pairs(f0, lg.mx[t]), **R)
+    if n < len(yv):
+        g.rat_eq(f"{tag}: {what} mean of x_{t} does not depend on later observations", *flat_pairs(B[:, n:], np.zeros((lg.ds, len(yv) - n), dtype=int) + z3.RealVal(0)), **R)
+    Bc = B[:, :n]
+    g.rat_eq(f"{tag}: {what} residual x_{t} - mean is uncorrelated with y_0..y_{n_cond - 1} (B S_yy == S_xy: conditional expectation of the joint Gaussian)",
+             *flat_pairs(mm(Bc, lg.Syy(n_cond)), lg.Sxy(t, n_cond)), **R)
+    g.rat_eq(f"{tag}: {what} covariance of x_{t} == S_xx - B S_yx (conditional covariance of the joint Gaussian)",
+             *flat_pairs(Pcov, lg.Cxx[t][t] - mm(Bc, lg.Sxy(t, n_cond).T)), **R)
+    # teeth: the slope transposed / a wrong block must be refuted
+    return B
+
+
+def gaussian_logpdf_obligations(g, tag, what, gterm, zvars, mean, S, R, paths, assumptions):
+    """gterm (a z3 term in zvars and parameters) is the log density of N(mean, S)"""
+    n = len(zvars)
+    gt = sj.obj(gterm)
+    g0 = at(gt, zvars, mean).item()
+    gi = []
+    for i in range(n):
+        gi.append(at(gt, zvars, [m + (1 if k == i else 0) for k, m in enumerate(mean)]).item())
+    Lm = np.empty((n, n), dtype=object)
+    for i in range(n):
+        Lm[i, i] = -2 * (gi[i] - g0)
+        for j in range(i + 1, n):
+            gij = at(gt, zvars, [m + (1 if k in (i, j) else 0) for k, m in enumerate(mean)]).item()
+            Lm[i, j] = Lm[j, i] = -(gij - gi[i] - gi[j] + g0)
+    dz = [z - m for z, m in zip(zvars, mean)]
+    quad = sum(Lm[i, j] * dz[i] * dz[j] for i in range(n) for j in range(n))
+    g.rat_eq(f"{tag}: {what} - its value at the mean is the quadratic form -1/2 (z-m)' L (z-m)", gt.item() - g0, -quad / 2, **R)
+    eye = np.array([[z3.RealVal(1 if i == j else 0) for j in range(n)] for i in range(n)], dtype=object)
+    g.rat_eq(f"{tag}: the precision L read off {what} is the inverse of the reference covariance (L S == I)", *flat_pairs(mm(Lm, S), eye), **R)
+    # constant part: value at the mean == -n/2 log(2 pi) - 1/2 log det S
+    ok, why = True, ""
+    A = list(g.assumptions) + list(assumptions)
+    prods = []
+    for path in (paths or [[]]):
+        try:
+            t = solve.resolve_ites(z3.simplify(g0), A + list(path))
+            c, logs = loglin(t)
+        except Exception as e:
+            ok, why = False, f"value at the mean is not of the form c + sum k_j Log(a_j): {e}"
+            break
+        ref = -(n / 2.0) * math.log(2 * math.pi)
+        if abs(float(c) - ref) > 2e-5 * max(1.0, abs(ref)):
+            ok, why = False, f"constant {float(c)!r} where -n/2 log(2 pi) = {ref!r}"
+            break
+        prod = z3.RealVal(1)
+        for arg, k in logs:
+            e = -2 * k
+            if e.denominator != 1 or e == 0:
+                ok, why = False, f"coefficient {k} of Log({str(arg)[:60]})"
+                break
+            for _ in range(abs(int(e))):
+                prod = prod * arg if e > 0 else prod / arg
+        prods.append((path, prod))
+    g.ok(f"{tag}: {what} at the mean == c + sum of log terms with c == -n/2 log(2 pi)", ok, why)
+    if ok:
+        dS = det(S)
+        for path, prod in prods:
+            Rp = dict(R)
+            Rp["paths"] = [path]
+            g.rat_eq(f"{tag}: exp(-2 (log terms of {what} at the mean)) == det S (normalising constant)" + (f" [path {len(path)} conds]" if path else ""),
+                     prod, dS, **Rp)
+
+
+def loglin(t):
+    """t == c + sum_j k_j Log(a_j) as rational functions; returns (c, [(a_j, k_j)]) with exact rational c, k_j"""
+    rc = solve.RatCtx()
+    P, F = solve.rat_of(z3.simplify(t), rc)
+    Q = rc.expand(F)
+    P, D1 = solve._reduce_sqrt_poly(P, rc)
+    Q, D2 = solve._reduce_sqrt_poly(Q, rc)
+    P, Q = solve._pmul(P, D2), solve._pmul(Q, D1)
+    groups = {}
+    const_logs = Fraction(0)
+    for m, c in P.items():
+        logs = [(k, e) for k, e in m if sj.is_app_of(rc.atoms[k], "Log", 1)]
+        if len(logs) > 1 or (logs and logs[0][1] != 1):
+            raise ValueError("nonlinear in Log terms")
+        key = logs[0][0] if logs else None
+        rest = tuple(x for x in m if not logs or x[0] != key)
+        groups.setdefault(key, {})[rest] = c
+
+    def ratio(Pj):
+        if not Pj:
+            return Fraction(0)
+        m0 = sorted(Q)[0] if Q else None
+        if m0 is None or m0 not in Pj:
+            raise ValueError("not proportional to the denominator")
+        k = Fraction(Pj[m0]) / Fraction(Q[m0])
+        if solve._padd(Pj, solve._pscale(Q, k), -1):
+            raise ValueError("not proportional to the denominator")
+        return k
+    c = float(ratio(groups.pop(None, {})))
+    out = []
+    for key, Pj in groups.items():
+        arg = rc.atoms[key].arg(0)
+        k = ratio(Pj)
+        if sj.is_num(arg):
+            c += float(k) * math.log(float(sj.num_val(arg)))      # Log of a literal (e.g. log(2 pi) computed at trace time)
+        else:
+            out.append((arg, k))
+    return c, out
+
+
+def kalman(g, ds, do, T, smoother=False):
+    from genjax.extras.state_space import kalman_filter, kalman_smoother, linear_gaussian_exact_log_marginal
+    lg = LG(ds, do, T)
+    tag = f"d_state={ds} d_obs={do} T={T}"
+    if smoother:
+        Tr = g.try_trace(f"{tag}: kalman_smoother traces", kalman_smoother, *lg.example(), sym_in=lg.sym())
+    else:
+        Tr = g.try_trace(f"{tag}: kalman_filter traces", lambda *a: (kalman_filter(*a), linear_gaussian_exact_log_marginal(*a)),
+                         *lg.example(), sym_in=lg.sym())
+    if Tr is None:
+        return
+    g.assume(*lg.cons)
+    if smoother:
+        means, covs = Tr.outs
+        lml = None
+    else:
+        (means, covs, lml), lml2 = Tr.outs
+    means, covs = sj.obj(means), sj.obj(covs)
+    g.ok(f"{tag}: output shapes (T, d_state) and (T, d_state, d_state)", means.shape == (T, ds) and covs.shape == (T, ds, ds))
+    allterms = sj.terms(means) + sj.terms(covs) + (sj.terms(lml) if lml is not None else [])
+    try:
+        paths = solve.enumerate_paths(allterms, lg.cons)
+    except RuntimeError as e:
+        g._rec(f"{tag}: path enumeration", "inconclusive", detail=str(e))
+        return
+    g.ok(f"{tag}: {len(paths)} feasible branch path(s) (pivot / abs choices) enumerated", len(paths) >= 1)
+    R = dict(paths=paths)
+    what = "smoothed" if smoother else "filtered"
+    for t in range(T):
+        conditional_mean_obligations(g, tag, what, means[t], covs[t], lg, t, T if smoother else t + 1, R)
+    if lml is not None:
+        n = T
+        Sy = lg.Syy(n)
+        gaussian_logpdf_obligations(g, tag, "log marginal likelihood", lml, lg.yvars(), lg.my_flat(), Sy, R, paths, [])
+        g.eq(f"{tag}: linear_gaussian_exact_log_marginal == kalman_filter's log marginal", lml2, lml)
+    # teeth
+    if T > 1 and not smoother:
+        yv, base = lg.yvars(), lg.my_flat()
+        f0, B = slope(means[T - 1], yv, base)
+        n = T * do
+        l, r = flat_pairs(mm(B[:, :n], lg.Syy(T)), lg.Sxy(T - 2, T))
+        g.fault_twin("slope-against-covariance-with-the-wrong-time-step",
+                     z3.And(*[a == b for a, b in zip(l, r)]))
+
+
+def lg_step(g, ds, do):
+    """one step of the linear_gaussian step model: density of (state, obs) given prev/time index"""
+    from genjax.extras.state_space import linear_gaussian
+    lg = LG(ds, do, 1)
+    tag = f"d_state={ds} d_obs={do}"
+    prev = sj.fresh_like((ds,), np.float32, "prev")
+    x = sj.fresh_like((ds,), np.float32, "x")
+    y = sj.fresh_like((do,), np.float32, "yy")
+    tix = z3.Int("tix")
+    ex = lg.example()
+
+    def f(x_, y_, prev_, t_, *ps):
+        d, r = linear_gaussian.assess({"state": x_, "obs": y_}, prev_, t_, *ps)
+        return d, r
+    Tr = g.try_trace(f"{tag}: linear_gaussian.assess traces", f, jnp.zeros(ds), jnp.zeros(do), jnp.zeros(ds), jnp.int32(0), *ex[1:],
+                     sym_in=[x, y, prev, sj.obj(tix)] + lg.sym()[1:])
+    if Tr is None:
+        return
+    g.assume(*lg.cons)
+    g.assume(tix >= 0)
+    d, r = Tr.outs
+    g.eq(f"{tag}: step returns (state, t + 1, parameters unchanged)", r,
+         (x, sj.obj(tix + 1), lg.mu0, lg.S0, lg.A, lg.Q, lg.C, lg.R))
+    zv = list(x) + list(y)
+    for init in (True, False):
+        cond = [(tix == 0) if init else (tix > 0)]
+        mxs = lg.mu0 if init else mm(lg.A, prev)
+        Sx = lg.S0 if init else lg.Q
+        mean = list(mxs) + list(mm(lg.C, mxs))
+        S = np.block([[Sx, mm(Sx, lg.C.T)], [mm(lg.C, Sx), mm(lg.C, Sx, lg.C.T) + lg.R]])
+        try:
+            paths = solve.enumerate_paths([sj.unlog(sj.obj(d).item())], list(g.assumptions) + cond)
+        except RuntimeError as e:
+            g._rec(f"{tag}: path enumeration", "inconclusive", detail=str(e))
+            return
+        paths = [cond + p for p in paths]
+        R = dict(paths=paths)
+        gaussian_logpdf_obligations(g, tag + (" t=0" if init else " t>0"), "step density", d, zv, mean, S, R, paths, [])
+
+
+def lg_iter(g, ds, do, T):
+    """the step model iterated (carrying its own return value) is the joint density of (x_0..x_{T-1}, y_0..y_{T-1})"""
+    from genjax.extras.state_space import linear_gaussian
+    lg = LG(ds, do, T)
+    tag = f"d_state={ds} d_obs={do} T={T}"
+    X = mat("x", T, ds)
+    ex = lg.example()
+
+    def f(xs, ys, *ps):
+        carry = (jnp.zeros(ds), jnp.int32(0)) + tuple(ps)
+        total = 0.0
+        for t in range(T):
+            d, carry = linear_gaussian.assess({"state": xs[t], "obs": ys[t]}, *carry)
+            total = total + d
+        return total
+    Tr = g.try_trace(f"{tag}: iterated linear_gaussian.assess traces", f, jnp.zeros((T, ds)), *ex, sym_in=[X] + lg.sym())
+    if Tr is None:
+        return
+    g.assume(*lg.cons)
+    d = Tr.outs
+    zv = list(X.ravel()) + lg.yvars()
+    mean = [e for t in range(T) for e in lg.mx[t]] + lg.my_flat()
+    Sxx = np.block([[lg.Cxx[s][t] for t in range(T)] for s in range(T)])
+    Sxy = np.block([[lg.Cxy[s][t] for t in range(T)] for s in range(T)])
+    S = np.block([[Sxx, Sxy], [Sxy.T, lg.Syy(T)]])
+    try:
+        paths = solve.enumerate_paths([sj.unlog(sj.obj(d).item())], list(g.assumptions))
+    except RuntimeError as e:
+        g._rec(f"{tag}: path enumeration", "inconclusive", detail=str(e))
+        return
+    gaussian_logpdf_obligations(g, tag, "sum of step densities", d, zv, mean, S, dict(paths=paths), paths, [])
